@@ -1,7 +1,7 @@
 //! C07 conformance driver: ZIP 317 fee rule and change strategies.
 //!
 //!   c07_driver fee-replay <cases.ndjson>          spec -> code: cases enumerated by TLC (MC_Zip317)
-//!   c07_driver trace <out.ndjson> <n_random> <sweep:0|1>   code -> spec: seeded trace for Trace_ChangeStrategy
+//!   c07_driver trace <out.ndjson> <n_random> <sweep:0|1|2>   code -> spec: seeded trace for Trace_ChangeStrategy
 //!   c07_driver exec <requests.ndjson> <out.ndjson>         re-executes logged requests (replay of a violation)
 //!
 //! The driver never computes an expected value: it materialises abstract requests as real calls of
@@ -499,10 +499,10 @@ fn lattice(rng: &mut ChaCha8Rng, m: u64, thr: u64, min_split: u64) -> u64 {
         pick(rng, &base) as u128
     } else if r < 75 {
         rng.gen_range(0..2_000_000u64) as u128
-    } else if r < 88 {
+    } else if r < 92 {
         pick(rng, &[999_999u64, 1_000_000, 2_000_000, 3_000_000, 5_000_000, 10_000_000, 100_000_000,
                     1_000_000_000_000, 2_000_000_000_000, 500_000_000_000]) as u128
-    } else if r < 95 {
+    } else if r < 97 {
         pick(rng, &[MAX_MONEY, MAX_MONEY - 1, MAX_MONEY / 2, MAX_MONEY / 2 + 1, MAX_MONEY - 100_000, MAX_MONEY - 10_000,
                     MAX_MONEY / 3]) as u128
     } else {
@@ -657,7 +657,7 @@ fn tune(rng: &mut ChaCha8Rng, q: &mut Req) {
 }
 
 /// Deterministic boundary sweep: flow patterns x policies x (number of marginal fees, delta).
-fn sweep(w: &mut NdjsonWriter) {
+fn sweep(w: &mut NdjsonWriter, full: bool) {
     // (tin, tout, sin, sout, oin, oout, iin, iout) counts; the first listed input is the tuned one
     let patterns: [[usize; 8]; 12] = [
         [1, 1, 0, 0, 0, 0, 0, 0],
@@ -676,14 +676,16 @@ fn sweep(w: &mut NdjsonWriter) {
     for (pi, pat) in patterns.iter().enumerate() {
         for act in 0..3u8 {
             for thr in [None, Some(12_000u64)] {
-                for (multi, target, min_split, notes) in [(false, 1usize, 0u64, -1i64), (true, 3, 6_000, 0), (true, 4, 0, 2)] {
+                for (vi, (multi, target, min_split, notes)) in [(false, 1usize, 0u64, -1i64), (true, 3, 6_000, 0), (true, 4, 0, 2)].into_iter().enumerate() {
+                    if !full && vi == 2 { continue; }
                     for target_h in [150u32, 250] {
                         let nu63 = target_h >= 200;
                         for memo in [false, true] {
                             if memo && (act == 1 || multi) { continue; }
                             let thr_eff = thr.unwrap_or(5000) as i128;
-                            for a in 0..=8i128 {
-                                for delta in [-1i128, 0, 1, thr_eff - 1, thr_eff, thr_eff + 1, 6_000 * 2 - 1, 6_000 * 3] {
+                            for a in 0..=(if full { 8i128 } else { 6 }) {
+                                for (di, delta) in [-1i128, 0, 1, thr_eff - 1, thr_eff, thr_eff + 1, 6_000 * 2 - 1, 6_000 * 3].into_iter().enumerate() {
+                                    if !full && di >= 6 { continue; }
                                     let out_each = if pi == 6 || pi == 7 || pi == 10 { 1_000_000u64 } else { 30_000 };
                                     let mut q = Req {
                                         rule_kind: (pi % 2) as u8, m: 5000, g: 2, pin: 150, pout: 34,
@@ -887,13 +889,13 @@ fn main() {
         Some("fee-replay") => fee_replay(&args[2]),
         Some("trace") => {
             let n: usize = args[3].parse().expect("n");
-            let do_sweep = args.get(4).map(|s| s == "1").unwrap_or(false);
+            let sweep_mode: u8 = args.get(4).and_then(|s| s.parse().ok()).unwrap_or(0);
             let seed = util::seed_from_env();
             let mut rng = ChaCha8Rng::seed_from_u64(seed ^ 0xC07C_07C0_7C07);
             let mut w = NdjsonWriter::create(&args[2]);
             fee_records(&mut rng, &mut w, (n / 8).max(30));
-            if do_sweep {
-                sweep(&mut w);
+            if sweep_mode > 0 {
+                sweep(&mut w, sweep_mode > 1);
             }
             let mut stats = std::collections::BTreeMap::<String, usize>::new();
             for _ in 0..n {
